@@ -224,6 +224,87 @@ fn check_offset_instant(ts: i64, offset_secs: i32, st: &mut Stats) {
     }
 }
 
+/// Archive re-write of a block of (date, time) words: a foreign archive carrying the words is read by the crate,
+/// and every timestamp is re-written three ways (start_file with the value read, raw copy, append nothing);
+/// the words in the produced bytes (independent parser) and as re-read by the crate must be unchanged.
+fn check_rewrite(words: &[(u16, u16)], st: &mut Stats) {
+    use crate::reference::zipbuild::{build, ESpec, Spec};
+    use crate::reference::zipparse::{self, Opts};
+    use std::io::{Cursor, Write};
+    let order = ((words[0].0 as u64) << 16) | words[0].1 as u64;
+    let case = || json!({"kind":"rewrite","words": words.iter().map(|w| json!([w.0, w.1])).collect::<Vec<_>>()});
+    let spec = Spec { entries: words.iter().enumerate().map(|(i, w)| ESpec { name: format!("t{i}").into_bytes(), content: b"x".to_vec(), date: w.0, time: w.1, ..Default::default() }).collect(), ..Default::default() };
+    let src = build(&spec).0;
+    st.evals += words.len() as u64;
+    let r = guard(|| -> Result<Vec<(&'static str, Vec<u8>)>, String> {
+        let mut ar = zip::ZipArchive::new(Cursor::new(&src[..])).map_err(|e| format!("open: {e}"))?;
+        let mut a = zip::ZipWriter::new(Cursor::new(vec![]));
+        let mut b = zip::ZipWriter::new(Cursor::new(vec![]));
+        for i in 0..ar.len() {
+            let lm = {
+                let f = ar.by_index(i).map_err(|e| format!("by_index: {e}"))?;
+                let lm = f.last_modified();
+                if (lm.datepart(), lm.timepart()) != words[i] {
+                    return Err(format!("entry {i}: last_modified() reports ({:#06x},{:#06x}) for stored words ({:#06x},{:#06x})", lm.datepart(), lm.timepart(), words[i].0, words[i].1));
+                }
+                lm
+            };
+            a.start_file(format!("t{i}"), zip::write::FileOptions::default().compression_method(zip::CompressionMethod::Stored).last_modified_time(lm)).map_err(|e| format!("start_file: {e}"))?;
+            a.write_all(b"x").map_err(|e| e.to_string())?;
+            let f = ar.by_index_raw(i).map_err(|e| format!("by_index_raw: {e}"))?;
+            b.raw_copy_file(f).map_err(|e| format!("raw_copy_file: {e}"))?;
+        }
+        let a = a.finish().map_err(|e| format!("finish: {e}"))?.into_inner();
+        let b = b.finish().map_err(|e| format!("finish: {e}"))?.into_inner();
+        let mut c = zip::ZipWriter::new_append(Cursor::new(src.clone())).map_err(|e| format!("new_append: {e}"))?;
+        let c = c.finish().map_err(|e| format!("finish after new_append: {e}"))?.into_inner();
+        Ok(vec![("start_file(last_modified_time(read value))", a), ("raw_copy_file", b), ("new_append + finish", c)])
+    });
+    match r {
+        Err(p) => st.viol(format!("rewrite/panic/{}", panic_site(&p)), format!("re-writing timestamps panicked: {p}"), case(), order),
+        Ok(Err(e)) => st.viol("rewrite/failed", format!("re-writing timestamps read from an archive failed: {e}"), case(), order),
+        Ok(Ok(outs)) => {
+            for (route, bytes) in outs {
+                match zipparse::parse(&bytes, &Opts::lenient()) {
+                    Ok(p) if p.entries.len() == words.len() => {
+                        for (i, e) in p.entries.iter().enumerate() {
+                            if (e.date, e.time) != words[i] {
+                                st.viol(
+                                    format!("rewrite/changed/{route}"),
+                                    format!("timestamp words ({:#06x},{:#06x}) read from an archive were re-written by {route} as ({:#06x},{:#06x})", words[i].0, words[i].1, e.date, e.time),
+                                    json!({"kind":"rewrite","words":[[words[i].0, words[i].1]]}),
+                                    ((words[i].0 as u64) << 16) | words[i].1 as u64,
+                                );
+                                break;
+                            }
+                        }
+                    }
+                    Ok(p) => st.viol(format!("rewrite/entries/{route}"), format!("{route}: {} entries instead of {}", p.entries.len(), words.len()), case(), order),
+                    Err(e) => st.viol(format!("rewrite/unparsable/{route}"), format!("{route}: independent parser rejects the result: {e}"), case(), order),
+                }
+                // and as the crate re-reads its own output
+                if let Ok(Ok(mut ar)) = guard(|| zip::ZipArchive::new(Cursor::new(&bytes[..]))) {
+                    for i in 0..ar.len().min(words.len()) {
+                        if let Ok(f) = ar.by_index_raw(i) {
+                            let lm = f.last_modified();
+                            if (lm.datepart(), lm.timepart()) != words[i] {
+                                st.viol(
+                                    format!("rewrite/reread/{route}"),
+                                    format!("timestamp words ({:#06x},{:#06x}) re-written by {route} are re-read as ({:#06x},{:#06x})", words[i].0, words[i].1, lm.datepart(), lm.timepart()),
+                                    json!({"kind":"rewrite","words":[[words[i].0, words[i].1]]}),
+                                    ((words[i].0 as u64) << 16) | words[i].1 as u64,
+                                );
+                                break;
+                            }
+                        }
+                    }
+                }
+                st.count("rewrite_words_checked", words.len() as u64);
+            }
+        }
+    }
+}
+
 fn replay(case: &Value, st: &mut Stats) {
     match case["kind"].as_str().unwrap_or("") {
         "msdos" => check_pair(case["date"].as_u64().unwrap() as u16, case["time"].as_u64().unwrap() as u16, st),
@@ -231,6 +312,12 @@ fn replay(case: &Value, st: &mut Stats) {
         "ctor" => {
             let a: Vec<u64> = case["args"].as_array().unwrap().iter().map(|x| x.as_u64().unwrap()).collect();
             check_ctor(a[0] as u16, a[1] as u8, a[2] as u8, a[3] as u8, a[4] as u8, a[5] as u8, st)
+        }
+        "rewrite" => {
+            let w: Vec<(u16, u16)> = case["words"].as_array().map(|a| a.iter().map(|x| (x[0].as_u64().unwrap_or(0) as u16, x[1].as_u64().unwrap_or(0) as u16)).collect()).unwrap_or_default();
+            if !w.is_empty() {
+                check_rewrite(&w, st)
+            }
         }
         "offset" => check_offset_instant(case["unix"].as_i64().unwrap_or(0), case["offset"].as_i64().unwrap_or(0) as i32, st),
         "calendar" => {
@@ -249,7 +336,8 @@ pub fn run(args: &Args) -> i32 {
     let thorough = args.tier.thorough();
     ctx.rule = "E-PROD: every (date word, time word) pair of the 2^32 domain is visited once by a mixed-radix counter \
         (pack/unpack inverse + accessor agreement); to_time()/try_from on the listed sub-domain; constructor: each argument \
-        over its whole type range + the 8^6 boundary-neighbour product; every calendar day 1979..2108 x 5 times. \
+        over its whole type range + the 8^6 boundary-neighbour product; every calendar day 1979..2108 x 5 times; \
+        archive re-write: word pairs read from a foreign archive and re-written three ways must be unchanged in the bytes. \
         distinct_nontrivial = distinct packed (date,time) words produced by accepted constructor calls (hash set) \
         plus the number of distinct pairs for which a calendar conversion was classified (counter; pairs never repeat)."
         .into();
@@ -355,6 +443,31 @@ pub fn run(args: &Args) -> i32 {
     });
     ctx.stats.merge(s5);
     ctx.bound("non_utc", json!("every hour (+ :29:59) of 4-day windows around 1980-01-01, 2107-12-31 and 6 other dates x offsets {0, +-1h, +5:30, -4:30, +14h, -12h, +-1s}"));
+
+    // 4. archive re-write: every date word x boundary time words, boundary date words x every time word
+    //    (thorough: 64 time words x every date word and 64 date words x every time word), 256 words per archive
+    let (bts, bds): (Vec<u16>, Vec<u16>) = if thorough {
+        ((0..64u32).map(|i| (i * 1040 + i) as u16).chain(bt.iter().copied()).collect(), (0..64u32).map(|i| (i * 1040 + 33) as u16).chain(bd.iter().copied()).collect())
+    } else {
+        (bt.to_vec(), bd.to_vec())
+    };
+    let mut words: Vec<(u16, u16)> = vec![];
+    for d in 0..=65535u16 {
+        for &t in &bts {
+            words.push((d, t));
+        }
+    }
+    for &d in &bds {
+        for t in 0..=65535u16 {
+            words.push((d, t));
+        }
+    }
+    let blocks: Vec<&[(u16, u16)]> = words.chunks(256).collect();
+    let blocks_r = &blocks;
+    let s6 = par_for(blocks.len() as u64, 4, |i, st| check_rewrite(blocks_r[i as usize], st));
+    ctx.stats.merge(s6);
+    ctx.bound("archive_rewrite", json!(format!("{} (date,time) word pairs: every date word x {} time words + {} date words x every time word; each read from a foreign archive and re-written by start_file(last_modified_time), raw_copy_file and new_append", words.len(), bts.len(), bds.len())));
+    crate::diag!("  [C18] archive re-write done at {:.1}s ({} words)", ctx.elapsed(), words.len());
 
     let pairs = ctx.stats.extra.get("to_time_pairs").copied().unwrap_or(0);
     ctx.stats.states = (1u64 << 32).max(pairs);
